@@ -29,6 +29,7 @@ ASSUMPTIONS = [
 ]
 META = ("REMOTE_ADDR", "REMOTE_HOST", "REMOTE_PORT", "SERVER_NAME", "SERVER_PORT", "HTTP_HOST", "wsgi.url_scheme")
 PEER = "10.9.8.7"
+HANG_S = 20
 
 
 class _Log:
@@ -466,10 +467,37 @@ def run_case_full(case):
     return fails, nontrivial, labels
 
 
+class _Hang(BaseException):   # not an Exception: the code under test catches Exception broadly and must not swallow the watchdog
+    pass
+
+
+def _alarm(_s, _f):
+    raise _Hang()
+
+
+def guarded(fn, case):
+    """hang oracle: no header value keeps the proxy-header code busy for more than HANG_S seconds (typical case: well under a millisecond)"""
+    import signal
+    old = signal.signal(signal.SIGALRM, _alarm)
+    signal.alarm(HANG_S)
+    try:
+        try:
+            return fn(case)
+        finally:
+            signal.alarm(0)
+            signal.signal(signal.SIGALRM, old)
+    except _Hang:
+        from .. import simnet
+        simnet.CUR = None
+        return ([{"sig": "C16/hang", "detail": "the proxy-header code was busy for more than %d s with headers %r" % (
+            HANG_S, {k: v[:60] for k, v in (case.get("hdrs") or {}).items()})}], True, {"hang"})
+
+
 def run_case(case):
     if case.get("e2e"):
-        return run_e2e(case)
-    return run_case_full(case)[0]
+        r = guarded(lambda c: (run_e2e(c), True, set()), case)
+        return r[0]
+    return guarded(run_case_full, case)[0]
 
 
 # ---------------------------------------------------------------- generation
@@ -595,17 +623,32 @@ def run_job(job, col):
         from ..fuzz import run_fuzz_job
         return run_fuzz_job(job, col, PID)
 
+    hangs = [0]
+
     def one(case):
+        if hangs[0] >= 3:
+            col.labels["skipped-after-3-hangs-in-this-job"] += 1   # every hang costs HANG_S seconds; three are evidence enough
+            return
         try:
-            fs, nt, labels = run_case_full(case)
+            fs, nt, labels = guarded(run_case_full, case)
         except C.CaseInvalid:
             return
+        if "hang" in labels:
+            hangs[0] += 1
         col.record(case, fs, nontrivial=nt, labels=labels)
 
     k = job["kind"]
     if k == "must400":
         for c in must400_table():
             one(c)
+        # values of the shape quote + (unit)*n + backslash-quote (starts and ends with a quote, not a quoted-string) and similar: the
+        # quoted-string / token matchers must answer at once (hang oracle: 20 s per case, three hangs end the table)
+        for unit in ("a", "a ", "ab", "\\a", "a,", "a;", "a="):
+            for n in (30, 60):
+                for v in ("\"" + unit * n + "\\\"", "\"" + unit * n + "\x01\"", "\"" + unit * n, unit * n + "\""):
+                    for hd, tph in (({"x-forwarded-for": v}, ["x-forwarded-for"]), ({"x-forwarded-host": "h, " + v}, ["x-forwarded-host"]),
+                                    ({"forwarded": "for=" + v}, ["forwarded"]), ({"forwarded": "for=1.2.3.4;host=" + v}, ["forwarded"])):
+                        one({"hdrs": hd, "tph": tph, "count": 1})
         # host / port / scheme combinations (default and non-default ports, host with and without a port, scheme stated or not)
         for host in ("example.com", "example.com:80", "example.com:8443", "[2001:db8::1]", "[2001:db8::1]:443"):
             for port in (None, "80", "443", "8080"):
@@ -626,7 +669,7 @@ def run_job(job, col):
     elif k == "e2e":
         for c in e2e_cases():
             try:
-                fs = run_e2e(c)
+                fs = guarded(lambda cc: (run_e2e(cc), True, set()), c)[0]
             except C.CaseInvalid:
                 continue
             col.record(dict(c, e2e=True), fs, nontrivial=True, labels=("end-to-end",))
